@@ -129,3 +129,31 @@ func useAfterClose(f *os.File) int64 {
 	}
 	return fi.Size()
 }
+
+type elem struct{ Extra []byte }
+
+// LINT-STALE: extra keeps the value of an earlier element when the current one has none.
+func staleCarry(in []string) []elem {
+	out := make([]elem, len(in))
+	var extra []byte
+	for i, s := range in {
+		if len(s) > 0 {
+			extra = []byte(s)
+		}
+		out[i] = elem{Extra: extra}
+	}
+	return out
+}
+
+// LINT-TYPEDNIL: a typed nil pointer inside an interface alongside the error.
+func typedNil(b []byte) (any, error) {
+	c, err := parseCert(b)
+	return c, err
+}
+
+func parseCert(b []byte) (*Certificate, error) {
+	if len(b) == 0 {
+		return nil, errors.New("empty")
+	}
+	return &Certificate{Serial: int(b[0])}, nil
+}
